@@ -25,7 +25,7 @@ CHECKS = {
          "The monitor can only under-estimate what is outstanding, so it never raises a false alarm; blocking semantics are exact in virtual time; small sequence spaces are enumerated completely. An API-boundary oracle (messages accepted minus packets covered by delivered ACK/NACKs never exceeds N) and transport write errors.",
          "FIFO link; monitor applies acknowledgements at delivery", "3/C09", True),
  "C10": ("fault_enumeration", "runtime monitoring over an enumerated fault space: every deliver/drop/dup/delay vector over the first k handshake packets per direction x start orders x stale-packet prefixes, run against the real handshake code in virtual time with mailbox-like re-dial drivers",
-         "The decision vectors, start orders and stale prefixes are enumerated completely (k=2 quick, k=3 thorough); for each the negotiated windows, the SYNs actually delivered and the eventual request/response exchange are checked. 144 transport-error cases (the k-th read or write of one side fails once) extend the enumerated fault space; a constructor must return a connection or an error.",
+         "The decision vectors, start orders and stale prefixes are enumerated completely (k=2 quick, k=3 thorough); for each the negotiated windows, the SYNs actually delivered and the eventual request/response exchange are checked. 144 transport-error cases (the k-th read or write of one side fails once) extend the enumerated fault space; a constructor must return a connection or an error. The first-messages family (768 cases) enumerates the fate of the client's SYNACK x drops among the first data packets of both sides x N x an application that sends at once or after the handshake timeout, with C01's prefix oracle on the first connection pair.",
          "stale SYNs really delivered are not held against the server; schedules within a case are sampled", "3/C10", True),
  "C12": ("exploration", "runtime monitoring: Close injected at recorded event instants of real gbn scenarios in virtual time; bounded-return, FIN, wake-up oracles and a goroutine census of the bubble",
          "For every drawn scenario Close is injected at the instants of its own wire events (and at random ones), by either side, both, or twice concurrently, over a working or dead transport, with slow and stalled consumers; handshake-phase cancellation, real-time slices for blocking transports (gbn level and a mailbox connection whose write is blocked by relay backpressure) and a goroutine census after scripted mailbox sessions. The census enumerates every goroutine started inside the bubble. A self-close slice (keepalive on one side only; a one-way outage or one transient write error closes the connection by itself) checks that the peer blocked in Recv is told by a FIN over the still working transport. Mailbox client set-up cancelled while the relay refuses streams; a staggered second Close on a blocking transport must not return while the receive loop still takes packets.",
@@ -46,7 +46,7 @@ CHECKS = {
          "Histories of Sent/Received events with arbitrary virtual gaps; the monitor checks the floor, where the value may change, the exact recomputed value and the one-step-per-interval boost rule.",
          "duration comparison with 1e-5 relative tolerance", "3/C20", True),
  "C03": ("exploration", "runtime monitoring: real noise Machines over a recording duplex; mismatch cases (single-bit passphrase differences, wrong stored keys) x version ranges x payload sizes with a matching-secret control; oracles on what the responder wrote, both results, snapshots and ConnData",
-         "Every mismatch case is paired with its matching control so that the monitor cannot pass vacuously; the responder's written byte count is the observable form of 'auth payload never released'. One case in eight is a sequence on the same ConnData objects (pairing, then another static key plus the passphrase in both roles, then the reconnect control): the stored-at-pairing-time half of the statement. After the pairing further first-time clients are served from the same passphrase buffer; handshake read deadlines on a transport that stays open must surface as errors.",
+         "Every mismatch case is paired with its matching control so that the monitor cannot pass vacuously; the responder's written byte count is the observable form of 'auth payload never released'. One case in eight is a sequence on the same ConnData objects (pairing, then another static key plus the passphrase in both roles, then the reconnect control): the stored-at-pairing-time half of the statement. After the pairing further first-time clients are served from the same passphrase buffer; handshake read deadlines on a transport that stays open must surface as errors. Sequences on one NoiseGrpcConn credentials object (pairing whose deadline reset fails, passphrase-only intruder, reconnect) and act ones of the key-based pattern forged from public keys alone against a responder whose signer works or fails.",
          "observable secrecy only; rpctest scrypt", "3/C03", True),
  "C04": ("exploration", "runtime monitoring: man-in-the-middle rewriting of real handshakes (all version-byte substitutions across acts, single-bit flips of handshake bytes) over all version-range combinations, both patterns, payload sizes to MiB; view-agreement oracle over machine snapshots and ConnData",
          "For every trial NOT(both complete AND views differ); violating version rewrites are minimised so that the finding key names the smallest tampering. Sequences on the same ConnData objects add: a write fault at each act (a failed party must have published nothing), the retry, and reconnects with other auth payload lengths. Payload slices with spare capacity; the payload an initiator holds is re-checked after other sessions of the process have run.",
